@@ -84,6 +84,14 @@ func Log(format string, args ...any) {
 	}
 }
 
+// LastRun returns the name of the thread that executed the most recent step ("" when running free).
+func LastRun() string {
+	if s := S; s != nil && s.cur != nil {
+		return s.cur.name
+	}
+	return ""
+}
+
 // Step returns the number of scheduler steps executed so far (0 when running free).
 func Step() int {
 	if s := S; s != nil {
